@@ -100,6 +100,13 @@ func resolveLoc(base *url.URL, ref string) (*url.URL, bool) {
 	if err != nil {
 		return nil, false
 	}
+	if base.Scheme == "http" || base.Scheme == "https" {
+		// network locations: the standard library's RFC 3986 section 5.2 resolution (escaped paths, queries and dot segments
+		// handled as the RFC says: a relative reference with a path does not inherit the base's query, one without a path does)
+		b := *base
+		b.Fragment = ""
+		return b.ResolveReference(r), true
+	}
 	out := &url.URL{}
 	switch {
 	case r.Scheme != "":
@@ -384,6 +391,38 @@ func runC11(c *core.Ctx) {
 			}
 		}
 	}
+	// a root location that carries a query and an escaped slash; references with their own query, with none, with a query only,
+	// with an escaped slash that is not a separator
+	for _, ref := range []string{"other.json?v=2", "other.json", "?v=2", "sub%2Fx.json", "..%2Fsecret.json", "./other.json?v=2&w=3", "../up.json?x=1"} {
+		for _, pos := range positions {
+			if pos.name != "components.schemas.Site" && pos.name != "operation.requestBody" && pos.name != "paths./pi" {
+				continue
+			}
+			if c.Mine(idx) {
+				rl := "https://example.invalid/a%2Fb/c/root.json?token=abc"
+				ru, _ := url.Parse(rl)
+				coll := ""
+				for _, k := range refKinds {
+					if k.name == pos.kind {
+						coll = k.coll
+					}
+				}
+				frag := "#/components/" + coll + "/T"
+				entries := gen.S{"T": targetObject(pos.kind, "MARKQUERY")}
+				if coll == "" {
+					frag, entries = "#/paths/~1t", gen.S{"/t": targetObject(pos.kind, "MARKQUERY")}
+				}
+				root := refRootSkeleton()
+				pos.plant(root, gen.S{"$ref": ref + frag})
+				if rr, err := url.Parse(ref); err == nil {
+					target := ru.ResolveReference(rr)
+					target.Fragment = ""
+					c11CaseAt(c, fmt.Sprintf("query-and-escaped-slash/%s", ref), rl, mustJSON(root), map[string]string{locKey(target): libDoc(coll, entries)})
+				}
+			}
+			idx++
+		}
+	}
 	// URL-bearing fields that are not references: must never be fetched
 	for _, d := range c11NonRefDocs() {
 		if c.Mine(idx) {
@@ -534,6 +573,9 @@ func c11Universe(c *core.Ctx, name, rootLocation string, rootLoc *url.URL, rootK
 		for _, allowed := range []bool{false, true} {
 			if fault != "" && !allowed {
 				continue
+			}
+			if e.name == "LoadFromData" && strings.HasPrefix(name, "query-and-escaped-slash/") {
+				continue // no document location to resolve against: these forms are about the location
 			}
 			desc := fmt.Sprintf("%s entry=%s allowed=%v", name, e.name, allowed)
 			if fault != "" {
